@@ -612,3 +612,57 @@ fn of12_empty_reliable_packet_is_pending_until_acknowledged() {
     assert!(hc.is_send_pending());
     std::mem::forget(w); std::mem::forget(hc);
 }
+
+// ---------------------------------------------------------------------------------------------------------------
+// O13.1: the credit refill of step(): at most rate x elapsed time is added, and the credit never exceeds one RTT's
+// worth of the allowed rate (C13).  Rate and RTT are concrete per instance (float multiplication by a constant),
+// the elapsed time and the previous credit are symbolic.
+fn credit_refill(rate: u32, rtt_ms: Option<u64>) {
+    let mut hc = small(0, 0, 0, 0, None);
+    let rtt_s = rtt_ms.map(|m| m as f64 / 1000.0);
+    hc.send_rate_comp.verif_set_rate_and_rtt(rate, rtt_s);
+    let t_last = crate::verif_env::fake_instant();
+    hc.time_last_flushed = Some(t_last);
+    let dt_ms: u64 = kani::any();
+    kani::assume(dt_ms <= 1 << 32);
+    let now = t_last + std::time::Duration::from_millis(dt_ms);
+    let c0: isize = kani::any();
+    kani::assume(c0 >= -(1472 * 3) && c0 <= 1 << 40);
+    hc.flush_alloc = c0;
+    hc.fill_flush_alloc(now);
+    let c1 = hc.flush_alloc;
+    // exact integer bounds for the two float products (values < 2^53: the float result is within 1 of the exact one)
+    let add_max = (rate as u128 * dt_ms as u128 / 1000) as i128 + 1;
+    let cap = match rtt_ms { Some(m) => (rate as u128 * m as u128 / 1000) as i128 + 1, None => 0 };
+    assert!((c1 as i128) <= (c0 as i128) + add_max, "[C13] a step adds at most (allowed rate x elapsed time) bytes of credit");
+    assert!((c1 as i128) <= cap, "[C13] the credit never exceeds (allowed rate x RTT estimate): idle time is not banked");
+    assert!(c1 <= c0 || c1 >= 0 || c0 < 0, "[C13]");
+    assert!(hc.time_last_flushed == Some(now), "[C13] the refill clock restarts");
+    kani::cover!(c1 > c0, "credit grew");
+    std::mem::forget(hc);
+}
+macro_rules! o13_1 { ($name:ident, $rate:expr, $rtt:expr) => {
+    #[kani::proof]
+    #[kani::unwind(3)]
+    fn $name() { credit_refill($rate, $rtt); }
+} }
+//@h props=C13 tier=quick timeout=900 role=credit-refill
+//@fn HalfConnection::fill_flush_alloc, SendRateComp::{send_rate, rtt_s}
+//@bound allowed rate 100000 B/s, RTT estimate 50 ms (concrete: float multiplication by constants); elapsed time since the last step ANY <= 2^32 ms; previous credit ANY in [-4416, 2^40]
+//@assume Instant values built from a fixed base plus a Duration (Instant::now is not called by fill_flush_alloc itself)
+o13_1!(o13_1_credit_refill_100k_50ms, 100_000, Some(50));
+//@h props=C13 tier=quick timeout=900 role=credit-refill
+//@fn HalfConnection::fill_flush_alloc
+//@bound allowed rate 1472 B/s (the smallest ceiling of the property), RTT estimate 1000 ms; elapsed time and previous credit as above
+//@assume as o13_1_credit_refill_100k_50ms
+o13_1!(o13_1_credit_refill_1472_1s, 1472, Some(1000));
+//@h props=C13 tier=thorough timeout=900 role=credit-refill
+//@fn HalfConnection::fill_flush_alloc
+//@bound allowed rate 2^32-1 B/s, RTT estimate 10 s; elapsed time and previous credit as above
+//@assume as o13_1_credit_refill_100k_50ms
+o13_1!(o13_1_credit_refill_max_rate_10s, u32::MAX, Some(10_000));
+//@h props=C13 tier=quick timeout=900 role=credit-refill
+//@fn HalfConnection::fill_flush_alloc
+//@bound allowed rate 100000 B/s, NO RTT estimate yet (the credit ceiling is then 0: at most one frame per flush); elapsed time and previous credit as above
+//@assume as o13_1_credit_refill_100k_50ms
+o13_1!(o13_1_credit_refill_no_rtt_estimate, 100_000, None);
